@@ -71,6 +71,8 @@ def classify(plan, macro, ref_table, known):
         return None
     if relaxed_non_key_params(plan) and "F-D7" in known:
         return "F-D7"
+    if d3_shape(plan) and "F-D3" in known:
+        return "F-D3"      # the stray (family-namespace) bound happens to hold: compiles, wrong projection
     return None
 
 
